@@ -15,7 +15,7 @@ def ffs(S):
     return ((S - 40) // 8) * 8
 
 
-ERRNO_RES = {105: "SNoBufs", 32: "SPipe", 104: "SPipe"}
+ERRNO_RES = {105: "SNoBufs", 32: "SPipe", 104: "SPipe", 4: "SPipe"}   # SPipe: any error other than ENOBUFS
 
 
 def outcome_of(send):
@@ -26,7 +26,7 @@ def outcome_of(send):
             e = int(send[4:-1])
         except ValueError:
             return None
-        return {105: "ErrNoBufs", 32: "ErrPipe", 104: "ErrPipe", 90: "ErrTooMany"}.get(e)
+        return {105: "ErrNoBufs", 32: "ErrPipe", 104: "ErrPipe", 4: "ErrPipe", 90: "ErrTooMany"}.get(e)
     return None
 
 
@@ -85,7 +85,7 @@ def project_recv(ops):
 
 
 def faults_term(pat):
-    return "[" + "; ".join("FNoBufs" if ch == "1" else "FOk" for ch in pat) + "]"
+    return "[" + "; ".join("FNoBufs" if ch == "1" else ("FPipe" if ch in "234" else "FOk") for ch in pat) + "]"
 
 
 def run_cases(binp, S, cases, flavour="default", shim=True, timeout=900):
